@@ -43,8 +43,11 @@ def plain(x):
 
 def initial_pool(seed):
     rng = random.Random(f'purity:{seed}')
-    roles = [':ARG0', ':ARG1', ':mod', ':domain', ':polarity', ':quant', ':op1', ':op2', ':accompanier', ':time', ':foo']
-    cfg = gen.TreeCfg(wellformed=True, roles=roles, concepts=['dog', 'bark-01', 'have-mod-91', 'x', 'accompany-01'], max_nodes=6,
+    # includes roles / concepts with more than one reification entry (:poss, :beneficiary; include-91): which one is taken
+    # must not depend on the hash seed
+    roles = [':ARG0', ':ARG1', ':ARG2', ':mod', ':domain', ':polarity', ':quant', ':op1', ':op2', ':accompanier', ':time', ':foo', ':poss',
+             ':beneficiary', ':subset']
+    cfg = gen.TreeCfg(wellformed=True, roles=roles, concepts=['dog', 'bark-01', 'have-mod-91', 'x', 'accompany-01', 'include-91', 'own-01'], max_nodes=6,
                       vars=['a', 'b', 'c', 'd', 'e', 'x', 'y', '_'], p_meta=0.5, exotic_symbols=0.0, p_missing_target=0.0)
     trees = []
     while len(trees) < 4:
